@@ -118,6 +118,19 @@ ImplKeyToZ(k, kz, zo, E, O) ==
       omax == IF od > 0 THEN ArithShift(imax - O + 1, od) - 1 ELSE ArithShift(imax - O, od)
   IN  <<omin, omax>>
 
+\* ---- the radix tree of the single-zoom overlap checks (C05) --------------------
+\* A spatial ID <<z, f, x, y>> inside the altitude domain (-2^(z-1) <= f < 2^(z-1), z >= 1)
+\* is stored under three bit strings of length z: the offset vertical index
+\* f + 2^(z-1), x and y.  A query overlaps the tree iff, on all three axes at
+\* once, a stored key is a prefix of the query key or the query key is a
+\* prefix of a stored key (mirrors tree.Append / tree.IsOverlap of the
+\* multidimensional radix tree, one level per zoom).
+TreeKey(t) == <<BitsOf(t[2] + Pow2(t[1] - 1), t[1]), BitsOf(t[3], t[1]), BitsOf(t[4], t[1])>>
+IsPrefix3(a, b) == /\ Len(a[1]) <= Len(b[1])
+                   /\ \A i \in 1..3 : SubSeq(b[i], 1, Len(a[i])) = a[i]
+TreeOverlap(A, B) ==
+  \E a \in A, b \in B : IsPrefix3(TreeKey(a), TreeKey(b)) \/ IsPrefix3(TreeKey(b), TreeKey(a))
+
 \* ---- binary-subdivision altitude IDs (C17) ---------------------------------
 \* heights in integer units; the range [mn, mx) is cut into 2^z cells.
 \* cell containing altitude a, clamped to the first / last cell:
